@@ -206,6 +206,31 @@ def run(rep, facts, tier):
                 'the purge of %s is %s: something a meta block built can survive its close' %
                 (w['field'][0], 'skipped under a further condition %s' % extra if extra else 'not under the MetaEval test' if not meta else 'not cut to ctx.cs_len'),
                 cc.name, w['at'])
+    # the decision how the block's results are emitted looks at the flows of the ENCLOSING context only (flow_stack[prev.fs_len..]):
+    # seen through the whole stack, a definition opened further out would be mistaken for the enclosing construct
+    evs = [ev for ev in awrite.field_events(fx, cc, {'state::State': {'flow_stack'}}) if not ev['mut']]
+    whole = [ev for ev in evs if (ev['callee'] or '').endswith('::deref') or ((ev['callee'] or '').endswith('::index') and
+             'fs_len' not in ' '.join(expr_str(cc.expr_of_operand(a), -20) for a in ev['term']['args'][1:]))]
+    floored = [ev for ev in evs if (ev['callee'] or '').endswith('::index') and 'RangeFrom' in
+               ' '.join(expr_str(cc.expr_of_operand(a), -20) for a in ev['term']['args'][1:])]
+    okf = bool(floored) and not whole
+    rep.add('C11.R3', 'C11.R3:context_close:pending-flows-read-above-the-enclosing-floor', okf,
+            'flow_stack is read only as flow_stack[<ctx>.fs_len..]' if okf else
+            'context_close looks at the whole flow stack (%s): inside a word definition a nested block is emitted as if the definition were '
+            'its enclosing construct' % ', '.join(sorted({short(ev['callee']) for ev in whole}) or ['no floored read found']),
+            cc.name, (whole or floored or [{'at': cc.j['span']}])[0]['at'])
+    # a constant redefined inside one block is updated in place: two entries of one name above the mark would be permuted by the
+    # swap_remove purge below and the older value could win the next lookup
+    cw = fx.fns.get('state::core_word_const')
+    if cw is None:
+        raise MissingAnchor('state::core_word_const')
+    cwt = inline.thread_fn(cw)
+    upd = [w for w in awrite.field_writes(fx, cwt, tracked) if w['field'][0] == 'dict' and w.get('elem') and w['how'].startswith('assign')]
+    ins = [bb for bb, t in cwt.calls() if callee_of(t) == 'state::State::dict_insert']
+    rep.add('C11.R3', 'C11.R3:const:redefinition-updates-in-place', bool(upd) and bool(ins),
+            'const overwrites the entry it owns and inserts otherwise' if upd and ins else
+            'const never updates an existing constant in place: a block that sets one constant twice leaves two entries of one name, and the '
+            'purge at `#)` (swap_remove) can put the older one last', cw.name, cw.j['span'])
     # the dictionary loop keeps only constants
     keeps_const = False
     for bb in cc.reachable_blocks():
